@@ -390,7 +390,27 @@ func (r *rewriter) rangeStmt(n *ast.RangeStmt) {
 		return
 	}
 	if _, isChan := tv.Type.Underlying().(*types.Chan); isChan && r.o.Sched {
-		r.err = fmt.Errorf("%s: range over channel is not supported by the instrumenter", r.site(n.Pos()))
+		// for v := range ch { ... }  ->  for { v, _vok := vsched.Recv2(site, ch); if !_vok { break }; ... }
+		switch n.X.(type) {
+		case *ast.Ident, *ast.SelectorExpr:
+		default:
+			r.err = fmt.Errorf("%s: range over a channel expression other than a name is not supported by the instrumenter", r.site(n.Pos()))
+			return
+		}
+		bind := "_"
+		after := ""
+		if n.Key != nil {
+			if id, ok := n.Key.(*ast.Ident); !ok || id.Name != "_" {
+				if n.Tok == token.ASSIGN {
+					bind, after = "_vv", fmt.Sprintf("%s = _vv;", r.text(n.Key))
+				} else {
+					bind = r.text(n.Key)
+				}
+			}
+		}
+		hdr := fmt.Sprintf("for {%s, _vok := vsched.Recv2(%q, %s); if !_vok { break }; %s%s", bind, r.site(n.Pos()), r.text(n.X), after, r.newlines(n.For, n.Body.Lbrace))
+		r.add(n.For, n.Body.Lbrace+1, hdr)
+		r.needSched = true
 		return
 	}
 	if r.o.Steps {
